@@ -59,6 +59,10 @@ func c17Concurrent(r *Run) {
 		done     bool
 		t0, t1   time.Duration
 		stall0   time.Duration
+		// cancelAfter > 0: the caller gives up on its own after that long (its context is cancelled, which is not
+		// the limiter's timeout): if it was still waiting it must not be admitted, with or without a permit
+		cancelAfter time.Duration
+		cancelled   bool
 	}
 	sim.Invariant(func() *verifsim.Failure {
 		if inside > max {
@@ -94,6 +98,9 @@ func c17Concurrent(r *Run) {
 	finished := 0
 	for i := 0; i < ntasks; i++ {
 		q := &req{id: i + 1, service: r.PlanDur(0, time.Millisecond, 50*time.Millisecond, time.Second, 10*time.Second), outcome: "SSEP"[r.Plan(4)]}
+		if r.Plan(4) == 0 {
+			q.cancelAfter = r.PlanDur(time.Millisecond, 5*time.Millisecond, 50*time.Millisecond, time.Second)
+		}
 		reqs = append(reqs, q)
 		delay := r.PlanDur(0, 0, time.Millisecond, 100*time.Millisecond)
 		sim.Task(fmt.Sprintf("req%02d", i), func() {
@@ -112,7 +119,14 @@ func c17Concurrent(r *Run) {
 			}
 			q.t0 = sim.Now()
 			q.stall0 = sim.StallTotal()
-			_, q.err = l.Handler(context.Background(), []byte("x"), next(q))
+			ctx := context.Background()
+			if q.cancelAfter > 0 {
+				var cancel context.CancelFunc
+				ctx, cancel = context.WithCancel(ctx)
+				tm := time.AfterFunc(q.cancelAfter, func() { q.cancelled = true; cancel() })
+				defer tm.Stop()
+			}
+			_, q.err = l.Handler(ctx, []byte("x"), next(q))
 		})
 	}
 	st := sim.Drive(func() bool { return finished == ntasks })
@@ -144,12 +158,12 @@ func c17Concurrent(r *Run) {
 				r.Fail("C17:timeout-without-timeout", "request %d was rejected with a timeout although the limiter has none", q.id)
 				return
 			}
-			if waited := q.t1 - q.t0 + (sim.StallTotal() - q.stall0); waited < timeout {
+			if waited := q.t1 - q.t0 + (sim.StallTotal() - q.stall0); waited < timeout && !q.cancelled {
 				r.Fail("C17:early-timeout", "request %d was rejected after %v, the wait timeout is %v", q.id, q.t1-q.t0, timeout)
 				return
 			}
 		}
-		if !q.ranNext && !timedOut {
+		if !q.ranNext && !timedOut && !(q.cancelled && q.err != nil) {
 			r.Fail("C17:request-lost", "request %d neither ran nor was rejected: err %v", q.id, q.err)
 			return
 		}
@@ -190,7 +204,12 @@ type c17adm struct {
 }
 
 func c17Rate(r *Run, concurrent, aligned bool) {
-	rate := []int64{1, 10, 1000, 100000}[r.Plan(4)]
+	// (the last three: byte-budget rates whose permit interval is not a whole number of nanoseconds)
+	rate := []int64{1, 10, 1000, 100000, 300000000, 600000000, 3000000000}[r.Plan(7)]
+	scale := 1
+	if rate >= 300000000 {
+		scale = []int{1000, 1000000, 20000000}[r.Plan(3)] // requests for kilo- and megabytes
+	}
 	burst := []float64{1, 2, 5, 100, math.Inf(1)}[r.Plan(5)]
 	timeout := r.PlanDur(0, 0, time.Millisecond, time.Second, time.Minute)
 	ntasks := 1
@@ -238,7 +257,10 @@ func c17Rate(r *Run, concurrent, aligned bool) {
 		}
 		var ops []op
 		for i := 0; i < nops; i++ {
-			o := op{gap: r.PlanDur(0, 0, unit/3, unit, 3*unit, 20*unit, 500*unit), tokens: r.PlanInt(1, 1, 1, 2, 3, 7, 50), fails: []byte{0, 0, 'E', 'P'}[r.Plan(4)]}
+			o := op{gap: r.PlanDur(0, 0, unit/3, unit, 3*unit, 20*unit, 500*unit), tokens: scale * r.PlanInt(1, 1, 1, 2, 3, 7, 50), fails: []byte{0, 0, 'E', 'P'}[r.Plan(4)]}
+			if scale > 1 {
+				o.gap = r.PlanDur(0, 0, time.Microsecond, time.Millisecond, 20*time.Millisecond)
+			}
 			if aligned {
 				// every task asks for one token at the same instants: lost updates add up
 				o = op{gap: unit, tokens: 1}
@@ -345,7 +367,9 @@ func c17Rate(r *Run, concurrent, aligned bool) {
 		how = "concurrent"
 	}
 	worstLit := 0.0
-	eps := func(allowed float64) float64 { return 1e-6*allowed + 1e-3 }
+	// (the clock has nanosecond resolution: a wait computed as 3331.6 ns is slept as 3331 or 3332, which at 600M
+	// tokens/s is worth half a token per admission - two admissions bound a window)
+	eps := func(allowed float64) float64 { return 1e-6*allowed + 1e-3 + 2*float64(rate)*1e-9 }
 	// (a) admissions at one and the same instant: whatever order they were taken in,
 	// all but the first and the last of them were paid for out of at most one burst
 	for i := 0; i < len(adm); {
@@ -361,7 +385,7 @@ func c17Rate(r *Run, concurrent, aligned bool) {
 			}
 			j++
 		}
-		if j-i > 2 && float64(sum-big1-big2) > burst+eps(burst) {
+		if j-i > 2 && float64(sum-big1-big2) > burst+eps(burst)+float64(j-i)*float64(rate)*1e-9 {
 			r.Fail("C17:rate-bound-exceeded:"+how, "rate %d/s burst %v: at t=%v %d requests totalling %d tokens were admitted at the same instant; even without its two largest (%d, %d) that is more than one burst", rate, burst, adm[i].at, j-i, sum, big1, big2)
 			return
 		}
@@ -376,16 +400,18 @@ func c17Rate(r *Run, concurrent, aligned bool) {
 			}
 			elapsed := (adm[j].at - adm[i].at).Seconds()
 			allowed := burst + float64(rate)*elapsed
-			interior, inclusive := 0, 0
+			interior, inclusive, nInside := 0, 0, 0
 			for _, a := range adm {
 				if a.at > adm[i].at && a.at < adm[j].at {
 					interior += a.tokens
+					nInside++
 				}
 				if a.at >= adm[i].at && a.at <= adm[j].at {
 					inclusive += a.tokens
 				}
 			}
-			if float64(interior) > allowed+eps(allowed) {
+			// every admission's wait is slept in whole nanoseconds: up to a nanosecond's worth of tokens each
+			if float64(interior) > allowed+eps(allowed)+float64(nInside)*float64(rate)*1e-9 {
 				r.Fail("C17:rate-bound-exceeded:"+how, "rate %d/s burst %v: strictly between t=%v and t=%v (%.6fs) %d tokens were admitted; burst + rate x elapsed = %.3f", rate, burst, adm[i].at, adm[j].at, elapsed, interior, allowed)
 				return
 			}
